@@ -106,7 +106,7 @@ func main() {
 			for _, fn := range names {
 				files = append(files, pkg.Files[fn])
 			}
-			info := &types.Info{Types: map[ast.Expr]types.TypeAndValue{}}
+			info := &types.Info{Types: map[ast.Expr]types.TypeAndValue{}, Uses: map[*ast.Ident]types.Object{}}
 			conf := types.Config{Importer: imp, Error: func(error) {}}
 			_, _ = conf.Check(ipath, fset, files, info) // partial info is enough
 
@@ -115,6 +115,7 @@ func main() {
 				nMap += rewriteMapRanges(f, info)
 				insertYields(fset, f, rel)
 				rewriteGoStmts(f, info)
+				rewriteClockAndExit(f, info)
 				for _, decl := range f.Decls {
 					gd, ok := decl.(*ast.GenDecl)
 					if !ok || gd.Tok != token.VAR {
@@ -182,6 +183,7 @@ func main() {
 	}
 	fmt.Printf("instrument: %d yield sites, %d map ranges rewritten, %d globals registered\n", len(sites), nMap, nGlobals)
 	fmt.Printf("instrument: gostmts=%d\n", nGoStmts)
+	fmt.Printf("instrument: clock calls rewritten=%d, exit calls rewritten=%d\n", nClockCalls, nExitCalls)
 }
 
 func uniq(s []string) []string {
@@ -222,6 +224,58 @@ func yieldStmt(fset *token.FileSet, rel string, pos token.Pos, kind string) ast.
 }
 
 var nGoStmts int
+var nClockCalls, nExitCalls int
+
+// rewriteClockAndExit (P-time, P-exit): the wall clock and process termination are seams too.
+// time.Now/Since/Until/Sleep become zzsimrt.Now/Since/Until/Sleep (the simulated clock while a
+// simulation runs); os.Exit and log.Fatal* become zzsimrt.Exit/Fatal* (recorded, then unwound
+// as a panic, instead of ending the worker process and every instance in it).
+func rewriteClockAndExit(f *ast.File, info *types.Info) {
+	keep := map[string]string{} // local package name -> a member to keep the import used
+	ast.Inspect(f, func(n ast.Node) bool {
+		call, ok := n.(*ast.CallExpr)
+		if !ok {
+			return true
+		}
+		sel, ok := call.Fun.(*ast.SelectorExpr)
+		if !ok {
+			return true
+		}
+		id, ok := sel.X.(*ast.Ident)
+		if !ok {
+			return true
+		}
+		pn, ok := info.Uses[id].(*types.PkgName)
+		if !ok {
+			return true
+		}
+		to := ""
+		switch pn.Imported().Path() + "." + sel.Sel.Name {
+		case "time.Now", "time.Since", "time.Until", "time.Sleep":
+			to = sel.Sel.Name
+			keep[id.Name] = "Now"
+			nClockCalls++
+		case "os.Exit":
+			to = "Exit"
+			keep[id.Name] = "Exit"
+			nExitCalls++
+		case "log.Fatal", "log.Fatalf", "log.Fatalln":
+			to = sel.Sel.Name
+			keep[id.Name] = "Fatal"
+			nExitCalls++
+		}
+		if to != "" {
+			call.Fun = &ast.SelectorExpr{X: ast.NewIdent("zzsimrt"), Sel: ast.NewIdent(to)}
+		}
+		return true
+	})
+	for pkg, member := range keep {
+		f.Decls = append(f.Decls, &ast.GenDecl{Tok: token.VAR, Specs: []ast.Spec{&ast.ValueSpec{
+			Names:  []*ast.Ident{ast.NewIdent("_")},
+			Values: []ast.Expr{&ast.SelectorExpr{X: ast.NewIdent(pkg), Sel: ast.NewIdent(member)}},
+		}}})
+	}
+}
 
 // rewriteGoStmts (P-go): `go f(a, b)` becomes
 //
@@ -385,10 +439,14 @@ package zzsimrt
 
 import (
 	"cmp"
+	"fmt"
+	"log"
+	"os"
 	"runtime"
 	"slices"
 	"sync"
 	"sync/atomic"
+	"time"
 )
 
 // Hook is called at every P-yield site while a simulation is running.
@@ -465,6 +523,57 @@ func Go(fn func()) {
 
 // ChildPanics counts panics that ended a goroutine the library started itself.
 var ChildPanics atomic.Int32
+
+// P-time: the library's clock. While a simulation runs, Clock is the simulated clock.
+var Clock func() time.Time
+
+// SleepHook, when set, is what time.Sleep does in the library (advance the simulated clock).
+var SleepHook func(d time.Duration)
+
+func Now() time.Time {
+	if c := Clock; c != nil && !(live.Load() != 0 && inChild()) {
+		return c()
+	}
+	return time.Now()
+}
+func Since(t time.Time) time.Duration { return Now().Sub(t) }
+func Until(t time.Time) time.Duration { return t.Sub(Now()) }
+func Sleep(d time.Duration) {
+	if h := SleepHook; h != nil && !(live.Load() != 0 && inChild()) {
+		h(d)
+		return
+	}
+	time.Sleep(d)
+}
+
+// P-exit: os.Exit and log.Fatal* in the library. ExitHook, when set, records the attempt and
+// unwinds (panics); without it the process ends as written.
+var ExitHook func(code int, msg string)
+
+func Exit(code int) {
+	if h := ExitHook; h != nil {
+		h(code, "os.Exit")
+	}
+	os.Exit(code)
+}
+func Fatal(a ...any) {
+	if h := ExitHook; h != nil {
+		h(1, fmt.Sprint(a...))
+	}
+	log.Fatal(a...)
+}
+func Fatalf(format string, a ...any) {
+	if h := ExitHook; h != nil {
+		h(1, fmt.Sprintf(format, a...))
+	}
+	log.Fatalf(format, a...)
+}
+func Fatalln(a ...any) {
+	if h := ExitHook; h != nil {
+		h(1, fmt.Sprintln(a...))
+	}
+	log.Fatalln(a...)
+}
 
 // LiveChildren reports how many library-started goroutines are running now.
 func LiveChildren() int { return int(live.Load()) }
